@@ -34,6 +34,9 @@ PAYLOADS = [
     "US\uff02 or f != \uff02", "x\uff07 weighted 0, \uff07y", "\uff02", "\uff07", "a\uff08b\uff09", "\uff5bx\uff5d", "\uff0b", "\uff03",
     "\uff02+str(__pyab_sentinel__())+\uff02", "\ufe63", "\u2033", "\u02ba",
     "x*/ def pwned { return 'evil' weighted 1 } /*", "*/ __pyab_sentinel__() /*", "*/", "/*", "a */ b", "// x",
+    "nan", "inf", "Infinity", "-inf", "1e999", "12", "1_0", "0x1F", "1e3", "True", "None", "Ellipsis", "...", "NotImplemented", "__debug__",
+    "<key>", "<body>", "<newline>", "<indent>", "<condition_kwargs>", "<salt>", "A<key>B", "{key}", "{body}", "$key", "%(key)s", "{{key}}",
+    "__KEY__", "@@BODY@@", "${salt}", "<%= key %>", "\\g<1>", "\\1", "$1", "&", "\\0",
     "name='f'", "name='uid'", "f", "uid", "1", "(1, 2)", "Identifier(name='f')", "0", "z",
     "it's", 'say "hi"', "plain", "\\n", "\\t'", "${x}", "`x`", "'+'", "\\'", 'a" + __pyab_sentinel__() + "b',
 ]
